@@ -131,7 +131,7 @@ func (fc *FC) RetVal(i int) *RF {
 	if same {
 		return first
 	}
-	if len(fc.Ctx.Loops()) == 0 {
+	{
 		if r := fc.retVal(fc.Fn.Blocks[0], 0); r != nil {
 			if at := r.SingleAtom(); at != nil && at.Name == "tuple" && i < len(at.Args) {
 				return at.Args[i]
@@ -429,8 +429,14 @@ func (fc *FC) edgeCond(p, b *ssa.BasicBlock) *RF {
 	case t && f:
 		return s.True()
 	case t:
+		if !fc.Ctx.EdgeLive(p, 1) {
+			return s.True() // the condition is decided by the context's assumptions
+		}
 		return c
 	case f:
+		if !fc.Ctx.EdgeLive(p, 0) {
+			return s.True()
+		}
 		return s.Not(c)
 	}
 	return s.False()
@@ -593,10 +599,23 @@ func (x *Extractor) SimplifyUnder(r *RF, assume []Assumption) *RF {
 			}
 		}
 		// an assumed atomic condition occurring inside a boolean structure
-		if isCmpName(at.Name) || at.Name == "lookupok" || at.Kind == "var" {
+		switch at.Name {
+		case "land", "lor", "not", "ite", "true", "false":
+			return nil
+		}
+		{
 			self := x.S.Fn(at.Name, args...)
 			if at.Kind == "var" {
 				self = x.S.atomRF(at.ID)
+			}
+			if isCmpName(at.Name) {
+				switch x.EvalCond(self, assume) {
+				case True:
+					return x.S.True()
+				case False:
+					return x.S.False()
+				}
+				return nil
 			}
 			for _, a := range assume {
 				if a.Cond != nil && a.Cond.Equal(self) {
@@ -910,21 +929,34 @@ func (x *Extractor) EquivByCases(a, b *RF, depth int) bool {
 	if depth > 10 {
 		return false
 	}
+	// split on an innermost gating condition first (one that contains no
+	// further gating function), so that the comparisons it guards become
+	// comparable; plain boolean conditions before comparisons
 	var cond *RF
+	rank := 0
 	for _, r := range []*RF{a, b} {
 		for _, at := range r.Atoms(true) {
-			if at.Name == "ite" && len(at.Args) == 3 {
-				cond = at.Args[0]
-				break
+			if at.Name != "ite" || len(at.Args) != 3 {
+				continue
 			}
-		}
-		if cond != nil {
-			break
+			k := 1
+			if len(FindFn(at.Args[0], "ite")) == 0 {
+				k = 2
+				if ca := at.Args[0].SingleAtom(); ca != nil && !isCmpName(ca.Name) && ca.Name != "land" && ca.Name != "lor" && ca.Name != "not" {
+					k = 3
+				}
+			}
+			if k > rank {
+				cond, rank = at.Args[0], k
+			}
 		}
 	}
 	if cond == nil {
 		if x.S.BoolEquiv(a, b) {
 			return true
+		}
+		if os.Getenv("GMSA_TRACE_EQ") != "" {
+			defer func() { fmt.Fprintf(os.Stderr, "EQ-LEAF depth=%d\n  a=%s\n  b=%s\n", depth, a, b) }()
 		}
 		// boolean structure over related comparisons: split on the first comparison leaf
 		cond = firstCmpLeaf(x.S, a)
